@@ -62,15 +62,15 @@ def _match(m, pos, open_c, close_c):
     raise InjectError('unbalanced %s at offset %d' % (open_c, pos))
 
 
-def find_function(text, name, occurrence=0):
+def find_function_ex(text, name, occurrence=0):
     """Locate the definition of function `name` (possibly `Class::name`).
-    Returns (body_open, body_close) offsets of its braces."""
+    Returns (name_pos, paren_open, body_open, body_close)."""
     m = _mask(text)
     pat = re.compile(r'(?<![\w:.>])' + re.escape(name) + r'\s*\(')
     found = []
+    seen_bodies = set()
     for mo in pat.finditer(m):
-        # must be at brace depth 0 or inside class/namespace/extern "C" blocks only:
-        # we accept any depth but require that a '{' follows the parameter list
+        # we accept any brace depth but require that a '{' follows the parameter list
         p_open = mo.end() - 1
         try:
             p_close = _match(m, p_open, '(', ')')
@@ -83,9 +83,17 @@ def find_function(text, name, occurrence=0):
         while k < len(m):
             ch = m[k]
             if ch == '{':
+                prev = m[j:k].rstrip()
+                if ':' in prev and re.search(r'[A-Za-z_]\w*$', prev) and not re.search(r'\b(const|noexcept|override|final)$', prev):
+                    k = _match(m, k, '{', '}') + 1      # member brace-initialiser "a{x}" in a ctor-init list
+                    continue
                 ok = True
                 break
             if ch in ';=' or ch == ')' or ch == ',':
+                # a ',' is fine inside a ctor-initialiser list: "a(x), b(y) {"
+                if ch == ',' and ':' in m[j:k]:
+                    k += 1
+                    continue
                 break
             if ch == '(':          # e.g. __attribute__((x)) or ctor-init a(b)
                 k = _match(m, k, '(', ')')
@@ -95,12 +103,21 @@ def find_function(text, name, occurrence=0):
         # reject calls: the token before the name must not make this an expression
         pre = m[:mo.start()].rstrip()
         if pre.endswith(('=', '(', ',', 'return', '!', '&&', '||', '+', '-', '?', ':')) and not pre.endswith('::'):
-            # "x = f(...) {" cannot be a definition
+            # "x = f(...) {" cannot be a definition; ": f(x) {" is a delegating ctor-initialiser
             continue
-        found.append((k, _match(m, k, '{', '}')))
+        if k in seen_bodies:
+            continue
+        seen_bodies.add(k)
+        found.append((mo.start(), p_open, k, _match(m, k, '{', '}')))
     if len(found) <= occurrence:
         raise InjectError('function %s (occurrence %d) not found' % (name, occurrence))
     return found[occurrence]
+
+
+def find_function(text, name, occurrence=0):
+    """Returns (body_open, body_close) offsets of the braces of the definition of `name`."""
+    r = find_function_ex(text, name, occurrence)
+    return r[2], r[3]
 
 
 _KW = re.compile(r'[A-Za-z_]\w*')
